@@ -106,7 +106,7 @@ impl From<Relation> for RelationAdapter {
 
 /// Table instance id
 #[derive(Debug, Clone, Copy, PartialEq, Eq, Hash, Serialize)]
-pub struct RIId(usize);
+pub struct RIId(pub(super) usize);
 
 impl From<usize> for RIId {
     fn from(id: usize) -> Self {
